@@ -8,6 +8,7 @@
     :copyright: (c) 2013-present by Abhinav Singh and contributors.
     :license: BSD, see LICENSE for more details.
 """
+import ssl
 import logging
 from abc import ABC, abstractmethod
 from typing import List, Union, Optional
@@ -58,6 +59,15 @@ class TcpConnection(ABC):
         data: bytes = self.connection.recv(buffer_size)
         if len(data) == 0:
             return None
+        # A TLS record is decrypted as a whole (up to 16KiB of plaintext).
+        # What did not fit into buffer_size stays within the SSL object,
+        # where the selector, which only watches the descriptor, never
+        # reports it.  Take the rest of the record along.
+        if isinstance(self.connection, ssl.SSLSocket):
+            pending = self.connection.pending()
+            while isinstance(pending, int) and pending > 0:
+                data += self.connection.recv(pending)
+                pending = self.connection.pending()
         logger.debug(
             'received %d bytes from %s' %
             (len(data), self.tag),
